@@ -295,7 +295,7 @@ void Broker::handle(const ConnPtr& c, BConn& b, const ref::Decoded& d, int cpkt)
                 later(c, [this, c, p, cpkt] {
                     ref::Packet a; a.type = ref::PUBACK; a.pid = p.pid; a.rc = ack_rc(ref::PUBACK); a.props = ack_props();
                     if (a.props.empty() && (int)w_.rng.below(100) < cfg.short_form_pct) a.short_form = a.rc == 0 ? uint8_t(1 + w_.rng.below(2)) : 1;
-                    send_packet(c, a, BKind::normal, cpkt);
+                    send_packet(c, a, ref::rc_listed(ref::PUBACK, a.rc) ? BKind::normal : BKind::hostile, cpkt);
                 });
             } else if (p.qos == 2) {
                 bool dupl = s && s->in_qos2.count(p.pid);
@@ -305,7 +305,7 @@ void Broker::handle(const ConnPtr& c, BConn& b, const ref::Decoded& d, int cpkt)
                 later(c, [this, c, p, cpkt, rc, props] {
                     ref::Packet a; a.type = ref::PUBREC; a.pid = p.pid; a.rc = rc; a.props = props;
                     if (a.props.empty() && (int)w_.rng.below(100) < cfg.short_form_pct) a.short_form = a.rc == 0 ? uint8_t(1 + w_.rng.below(2)) : 1;
-                    send_packet(c, a, BKind::normal, cpkt);
+                    send_packet(c, a, ref::rc_listed(ref::PUBREC, a.rc) ? BKind::normal : BKind::hostile, cpkt);
                 });
             }
             break;
@@ -316,7 +316,7 @@ void Broker::handle(const ConnPtr& c, BConn& b, const ref::Decoded& d, int cpkt)
                 ref::Packet a; a.type = ref::PUBCOMP; a.pid = p.pid; a.rc = known ? 0 : 0x92; a.props = props;
                 if (cfg.ack_bad_rc_pct && (int)w_.rng.below(100) < cfg.ack_bad_rc_pct) a.rc = ack_rc(ref::PUBCOMP);
                 if (a.props.empty() && (int)w_.rng.below(100) < cfg.short_form_pct) a.short_form = a.rc == 0 ? uint8_t(1 + w_.rng.below(2)) : 1;
-                send_packet(c, a, BKind::normal, cpkt);
+                send_packet(c, a, ref::rc_listed(ref::PUBCOMP, a.rc) ? BKind::normal : BKind::hostile, cpkt);
             });
             break;
         }
